@@ -73,7 +73,7 @@ Proof. intros Hin. apply existsb_exists. exists (JStr g). split; [apply in_map; 
 Lemma append_assoc_s (a b c : string) : ((a ++ b) ++ c = a ++ (b ++ c))%string.
 Proof. induction a; cbn; congruence. Qed.
 
-Lemma format_path_app path k suffix : (format_path path k ++ suffix)%string = (path ++ ("/" ++ k ++ suffix))%string.
+Lemma format_path_app path k suffix : (format_path path k ++ suffix)%string = (path ++ ("/" ++ esc_tok k ++ suffix))%string.
 Proof. unfold format_path. rewrite !append_assoc_s. reflexivity. Qed.
 
 Theorem restore1_exposed : forall t, wf t -> forall n R g k v d,
@@ -99,7 +99,7 @@ Proof.
       { apply view_blind. intros g' Hg'. rewrite Radd_other.
         - rewrite Forall_forall in Hcl. specialize (Hcl _ Hin). cbn in Hcl. rewrite <- Hg, HRg in Hcl. cbn in Hcl. auto.
         - intros ->. apply Hgs. apply hdigs_alldigs; assumption. }
-      exists ("/" ++ show_nat (List.length pre))%string. split; [eapply np_item_here; eauto|]. intros path.
+      exists ("/" ++ esc_tok (show_nat (List.length pre)))%string. split; [eapply np_item_here; eauto|]. intros path.
       pose proof (restore1_arr_step H enc show_nat n d path R (Radd R g) items pre (IHid salt, s) post (blind s)
                   (fun i => [(format_path path (show_nat i), d)])) as Hw.
       cbn [Model2.restore1]. rewrite view_arr. rewrite Hw; try assumption.
@@ -131,7 +131,7 @@ Proof.
         { pose proof (hmax_in item_h _ _ Hin) as Hm. unfold item_h in Hm. destruct ik; lia. }
         eapply IH; eauto. }
       destruct Hsub as [suffix [Hnp Hsub]].
-      exists ("/" ++ show_nat (List.length pre) ++ suffix)%string. split; [eapply np_item_in; eauto|]. intros path.
+      exists ("/" ++ esc_tok (show_nat (List.length pre)) ++ suffix)%string. split; [eapply np_item_in; eauto|]. intros path.
       pose proof (restore1_arr_step H enc show_nat n d path R (Radd R g) items pre (ik, s) post (view (Radd R g) s)
                   (fun i => [((format_path path (show_nat i) ++ suffix)%string, d)])) as Hw.
       cbn [Model2.restore1]. rewrite view_arr. rewrite Hw; try assumption.
@@ -214,7 +214,7 @@ Proof.
               rewrite Hq in Hpost_gt. exact (slt_irrefl _ Hpost_gt).
         - rewrite <- HF. assumption.
         - rewrite <- flat_map_app. apply in_flat_map. exists ("_sd", (MSd l, sy)). split; [assumption|]. left. reflexivity. }
-      exists ("/" ++ name)%string. split; [eapply np_mem_here; eauto|]. intros path. specialize (Hsd path). specialize (Hoth path).
+      exists ("/" ++ esc_tok name)%string. split; [eapply np_mem_here; eauto|]. intros path. specialize (Hsd path). specialize (Hoth path).
       cbn [Model2.restore1]. rewrite !view_obj, HF, HF', Hsd. cbn [bind].
       rewrite walk_id.
       * cbn [bind]. reflexivity.
@@ -268,7 +268,7 @@ Proof.
         { pose proof (hmax_in mem_h _ _ Hin) as Hm. unfold mem_h in Hm. destruct Hkind as [->|(salt & -> & _)]; lia. }
         eapply IH; eauto. }
       destruct Hsub as [suffix [Hnp Hsub]].
-      exists ("/" ++ name ++ suffix)%string. split; [eapply np_mem_in; eauto|]. intros path.
+      exists ("/" ++ esc_tok name ++ suffix)%string. split; [eapply np_mem_in; eauto|]. intros path.
       cbn [Model2.restore1]. rewrite !view_obj, Hsd. cbn [bind]. rewrite HF, HF'.
       rewrite (walk_split (obj_body (restore1 n d) path) (flat_map (vmem R) pre) (name, view R s) (flat_map (vmem R) post)
                  (name, view (Radd R g) s) [((format_path path name ++ suffix)%string, d)] true).
